@@ -351,7 +351,21 @@ func (g *scenGen) genBundleUnk() *Item {
 			}
 		}
 	}
-	if len(flagItems) == 0 {
+	// one-letter options that take a mandatory (detached) value: the value is the token after the bundle
+	var valuedItems []*Item
+	for _, o := range g.usableOpts() {
+		if !o.Kind.IsScalar() || len(o.Valid) > 0 {
+			continue
+		}
+		for _, k := range o.Keys() {
+			fr := FirstRune(k)
+			rk, ro, _ := g.node.ResolveKey(fr)
+			if ro == o && rk == k {
+				valuedItems = append(valuedItems, &Item{K: IValued, Opt: o, OptID: o.ID, Key: k, Typed: fr, Short: true, Level: g.node.Path})
+			}
+		}
+	}
+	if len(flagItems) == 0 && len(valuedItems) == 0 {
 		return nil
 	}
 	it := &Item{K: IBundleUnk, Level: g.node.Path}
@@ -362,8 +376,18 @@ func (g *scenGen) genBundleUnk() *Item {
 		unk  string
 	}
 	var slots []slot
+	if len(flagItems) == 0 {
+		nf = 0
+	}
 	for i := 0; i < nf; i++ {
 		slots = append(slots, slot{flag: flagItems[g.r.Intn(len(flagItems))]})
+	}
+	var valued *Item
+	if len(valuedItems) > 0 && (nf == 0 || g.r.Chance(1, 3)) {
+		c := *valuedItems[g.r.Intn(len(valuedItems))]
+		valued = &c
+		valued.Vals = []string{g.pay.ValueFor(valued.Opt.Kind)}
+		slots = append(slots, slot{flag: valued})
 	}
 	for i := 0; i < nu; i++ {
 		l := g.r.Pick(unkLetters)
@@ -384,6 +408,9 @@ func (g *scenGen) genBundleUnk() *Item {
 		}
 	}
 	it.Tokens = []string{tok}
+	if valued != nil {
+		it.Tokens = append(it.Tokens, valued.Vals[0])
+	}
 	return it
 }
 
